@@ -39,6 +39,10 @@ def _is_lift(t, f=None):
             ty = f["locals"][a["pl"]["l"]]["ty"]
             if "FnOnce" in ty and "dyn" in ty and "FsStatement" in ty:
                 return True
+            # a helper generic in its continuation (`bind_operand(term, |var, max_id| .., max_id)`): handed a closure, yields a focused statement
+            dl = (t.get("dest") or {}).get("l")
+            if "{closure@" in ty and dl is not None and "FsStatement" in f["locals"][dl]["ty"] and t["args"][0].get("pl") is not None:
+                return True
     return False
 
 
